@@ -6,7 +6,7 @@
 
    The shape of the six functions is described by a [skel] value.  tools/pygen/classic.py regenerates
    Gen_classic.upload_skel / download_skel from the source on every run and props/C20.v proves them equal to
-   [std_skel Local Remote] / [std_skel Remote Local] by computation.  The chunk loop is *interpreted* from the
+   [std_skel g Local Remote] / [std_skel g Remote Local] (g = the filter guard found in the code) by computation.  The chunk loop is *interpreted* from the
    generated statement list [fk_body]; which side is read and which is written is taken from the skeleton. *)
 From V Require Import lib.Base lib.Sx.
 From Coq Require Import String.
@@ -33,10 +33,15 @@ Record file_skel := {
   fk_dst : side; fk_dst_mode : fmode;      (*   with <side>.open(dstpath, mode) as df *)
   fk_body : list fstmt }.                  (*     while True: <body> *)
 
+(* the guard in front of the recursive call *)
+Inductive fguard :=
+| GTruthy     (* if not filter or filter(fn):      -- a filter object whose truth value is False counts as "no filter" *)
+| GIsNone.    (* if filter is None or filter(fn): *)
+
 Record dir_skel := {
   dk_mk : side;               (* if not <side>.os.path.isdir(dstpath): <side>.os.makedirs(dstpath) *)
   dk_list : side;             (* for fn in <side>.os.listdir(srcpath): *)
-  dk_filter_on_name : bool;   (*   if not filter or filter(fn): *)
+  dk_guard : fguard;          (*   if <guard on filter and the bare name fn>: *)
   dk_src_join : side;         (*     sfn = <side>.os.path.join(srcpath, fn) *)
   dk_dst_join : side;         (*     dfn = <side>.os.path.join(dstpath, fn) *)
   dk_ignore_invalid : bool }. (*     top(conn, sfn, dfn, filter=filter, ignore_invalid=<b>, chunk_size=chunk_size) *)
@@ -51,10 +56,10 @@ Record skel := { sk_top : top_skel; sk_file : file_skel; sk_dir : dir_skel }.
 Definition std_body : list fstmt := [SRead; SBreakIfEmpty; SWrite].
 
 (* the shape the theorems are proved for: everything about the source on side [s], everything about the destination on [d] *)
-Definition std_skel (s d : side) : skel :=
+Definition std_skel (g : fguard) (s d : side) : skel :=
   {| sk_top := {| tk_probe := s; tk_dir_first := true; tk_raise_unless_ignored := true |};
      sk_file := {| fk_src := s; fk_src_mode := RB; fk_dst := d; fk_dst_mode := WB; fk_body := std_body |};
-     sk_dir := {| dk_mk := d; dk_list := s; dk_filter_on_name := true; dk_src_join := s; dk_dst_join := d;
+     sk_dir := {| dk_mk := d; dk_list := s; dk_guard := g; dk_src_join := s; dk_dst_join := d;
                   dk_ignore_invalid := true |} |}.
 
 Definition src_side (k : skel) : side := tk_probe (sk_top k).
@@ -67,7 +72,7 @@ Definition coherent (k : skel) : bool :=
   side_eqb d (other s)
   && tk_dir_first (sk_top k) && tk_raise_unless_ignored (sk_top k)
   && side_eqb (fk_src (sk_file k)) s && fmode_eqb (fk_src_mode (sk_file k)) RB && fmode_eqb (fk_dst_mode (sk_file k)) WB
-  && side_eqb (dk_mk (sk_dir k)) d && side_eqb (dk_list (sk_dir k)) s && dk_filter_on_name (sk_dir k)
+  && side_eqb (dk_mk (sk_dir k)) d && side_eqb (dk_list (sk_dir k)) s
   && side_eqb (dk_src_join (sk_dir k)) s && side_eqb (dk_dst_join (sk_dir k)) d && dk_ignore_invalid (sk_dir k).
 
 (* ------------------------------------------------------------------ one file: the chunk loop *)
@@ -131,9 +136,23 @@ Fixpoint set_entry (k : name) (v : node) (es : list (name * node)) : list (name 
 Definition put (k : name) (d : option node) (es : list (name * node)) : list (name * node) :=
   match d with Some v => set_entry k v es | None => es end.
 
+(* the filter argument: None, or a callable object with a truth value *)
+Record filter_obj := { fo_truthy : bool; fo_pred : name -> bool }.
+(* the guard of the loop, as one predicate on the name *)
+Definition guard (g : fguard) (flt : option filter_obj) : name -> bool :=
+  fun k => match flt with
+           | None => true
+           | Some o => match g with GTruthy => negb (fo_truthy o) || fo_pred o k | GIsNone => fo_pred o k end
+           end.
+(* what the caller asked for: "a predicate that accepts the filename ...; None means any file" *)
+Definition wanted (flt : option filter_obj) : name -> bool :=
+  fun k => match flt with None => true | Some o => fo_pred o k end.
+Definition truthy_or_none (flt : option filter_obj) : bool :=
+  match flt with None => true | Some o => fo_truthy o end.
+
 Section Copy.
   Variable body : list fstmt.
-  Variable filter : name -> bool.       (* `not filter or filter(fn)` as one predicate on the name *)
+  Variable filter : name -> bool.       (* the guard as one predicate on the name *)
   Variable chunk : N.
 
   (* the for loop of upload_dir / download_dir over the listed entries; [des] is the destination directory so far *)
@@ -225,18 +244,18 @@ Definition set (s : side) (v : option node) (w : world) : world :=
 Definition swap (w : world) : world := {| at_local := at_remote w; at_remote := at_local w |}.
 
 (* run the function family described by [k] on the two paths *)
-Definition transfer (k : skel) (filter : name -> bool) (chunk : N) (ign : bool) (w : world) : result world :=
+Definition transfer (k : skel) (flt : option filter_obj) (chunk : N) (ign : bool) (w : world) : result world :=
   if coherent k then
     match get (src_side k) w with
     | None => if ign then Ok w else Raise ValueError     (* neither isdir nor isfile *)
     | Some src =>
-        do d <- copy_node (fk_body (sk_file k)) filter chunk ign src (get (dst_side k) w);
+        do d <- copy_node (fk_body (sk_file k)) (guard (dk_guard (sk_dir k)) flt) chunk ign src (get (dst_side k) w);
         Ok (set (dst_side k) d w)
     end
   else Unmodelled.
 
-Definition upload := transfer (std_skel Local Remote).
-Definition download := transfer (std_skel Remote Local).
+Definition upload (g : fguard) := transfer (std_skel g Local Remote).
+Definition download (g : fguard) := transfer (std_skel g Remote Local).
 
 (* ------------------------------------------------------------------ harness interface *)
 Fixpoint node_of_sx (fuel : nat) (x : sx) : node :=
@@ -267,8 +286,8 @@ Definition sx_of_opt (o : option node) : sx := match o with Some n => SL [sx_of_
 Fixpoint has_suffix (suf nm : list byte) : bool :=
   bytes_eqb suf nm || match nm with [] => false | _ :: r => has_suffix suf r end.
 
-(* filters: 0 none; 1 reject the listed names; 2 accept only the listed names; 3 reject a suffix; 4 reject longer than n *)
-Definition filter_of_sx (x : sx) : name -> bool :=
+(* predicates: 0 all; 1 reject the listed names; 2 accept only the listed names; 3 reject a suffix; 4 reject longer than n *)
+Definition pred_of_sx (x : sx) : name -> bool :=
   match x with
   | SL [SI 1%Z; SL l] => fun k => negb (mem_name k (map sx_b l))
   | SL [SI 2%Z; SL l] => fun k => mem_name k (map sx_b l)
@@ -277,15 +296,23 @@ Definition filter_of_sx (x : sx) : name -> bool :=
   | _ => fun _ => true
   end.
 
+(* filter argument: () = None, (truthy pred) = a callable object *)
+Definition filter_of_sx (x : sx) : option filter_obj :=
+  match x with
+  | SL [t; p] => Some {| fo_truthy := sx_bool t; fo_pred := pred_of_sx p |}
+  | _ => None
+  end.
+Definition guard_of_sx (x : sx) : fguard := if sx_bool x then GIsNone else GTruthy.
+
 Definition sx_of_world (w : world) : sx := SL [sx_of_opt (at_local w); sx_of_opt (at_remote w)].
 
 Definition run_files (x : sx) : sx :=
   match x with
-  | SL [t; dir; chunk; ign; flt; l; r] =>
+  | SL [t; g; dir; chunk; ign; flt; l; r] =>
       if is_tag "transfer" t then
         let w := {| at_local := opt_node_sx l; at_remote := opt_node_sx r |} in
         sx_result sx_of_world
-          ((if sx_bool dir then download else upload) (filter_of_sx flt) (sx_n chunk) (sx_bool ign) w)
+          ((if sx_bool dir then download else upload) (guard_of_sx g) (filter_of_sx flt) (sx_n chunk) (sx_bool ign) w)
       else bad_input
   | SL [t; chunk; SB data] =>
       if is_tag "copyfile" t then
@@ -294,7 +321,7 @@ Definition run_files (x : sx) : sx :=
       else bad_input
   | SL [t; flt; n] =>
       if is_tag "prune" t then
-        let nd := node_sx n in SL [sbool (wf_tree nd); sx_of_node (prune (filter_of_sx flt) nd)]
+        let nd := node_sx n in SL [sbool (wf_tree nd); sx_of_node (prune (wanted (filter_of_sx flt)) nd)]
       else bad_input
   | _ => bad_input
   end.
